@@ -138,7 +138,7 @@ func TestVerifReplay(t *testing.T) {
 }
 '''
 
-def write_replay(prop, case, pkg, fn, tape, note='', go_flags='', tags=HARNESS_TAG):
+def write_replay(prop, case, pkg, fn, tape, note='', go_flags='', tags=HARNESS_TAG, env=''):
     """write a self-contained replay directory; returns its path"""
     d = os.path.join(VERIF, 'replays', prop, case)
     os.makedirs(d, exist_ok=True)
@@ -159,8 +159,9 @@ def write_replay(prop, case, pkg, fn, tape, note='', go_flags='', tags=HARNESS_T
 # replay of a solver counterexample against the natively built package
 # %s
 export PATH=/opt/veriftools/go1.26.8/bin:$PATH GOFLAGS=-mod=mod GOPROXY=off GOSUMDB=off GOTOOLCHAIN=local
+%s
 cd %s && exec go test %s -tags %s -vet=off -count=1 -v -overlay %s -run 'TestVerifReplay$' .
-''' % (note.replace('\n', ' '), os.path.join(REPO, sub), go_flags, tags, os.path.join(d, 'overlay.json')))
+''' % (note.replace('\n', ' '), env, os.path.join(REPO, sub), go_flags, tags, os.path.join(d, 'overlay.json')))
     os.chmod(run, 0o755)
     return d
 
